@@ -502,7 +502,7 @@ static std::vector<ModelS> makeRAll()
         if (!THOROUGH && (layout == 2 || layout == 4)) continue;
         int n = layout == 0 ? 1 : layout <= 2 ? 2 : 3;
         for (int style = 0; style < 2; ++style) {
-            if (!THOROUGH && style != layout % 2) continue;
+            if ((!THOROUGH || layout == 2 || layout == 4) && style != layout % 2) continue;
             all.push_back(makeR(layout, {}, style));
             // one reset: every component x variable x test_variable; order and value shapes enumerated in thorough, rotated in quick
             for (int c = 0; c < n; ++c) for (int v = 0; v < 2; ++v) for (int tv = 0; tv < 2; ++tv) {
@@ -510,7 +510,7 @@ static std::vector<ModelS> makeRAll()
                 if (!THOROUGH && layout != 0 && (v + tv + c) % 2) continue;
                 for (int o = 0; o < 3; ++o) for (int k = 0; k < 2; ++k) {
                     // order x value-shape: full product on the single-component layout in thorough, rotated elsewhere
-                    if (!(THOROUGH && layout == 0) && (o != (c + v + tv) % 3 || k != (v + tv) % 2)) continue;
+                    if (!(THOROUGH && layout == 0 && style == 0) && (o != (c + v + tv) % 3 || k != (v + tv) % 2)) continue;
                     all.push_back(makeR(layout, {{c, v, tv, orders[o], k ? 1 : 0, k ? 2 : 0}}, style));
                 }
             }
@@ -667,6 +667,7 @@ static std::vector<ModelS> makeMAll()
     std::vector<ModelS> all;
     for (int layout = 0; layout < 3; ++layout) for (int shape = 0; shape < 6; ++shape) for (auto u : {"dimensionless", "second", "ub"}) {
         if (!THOROUGH && !((shape == 0 && std::string(u) == "dimensionless") || (layout == 0 && std::string(u) == "ub") || (shape == 4 && layout == 1 && std::string(u) == "second"))) continue;
+        if (THOROUGH && layout != 0 && std::string(u) == "second" && shape != 4) continue; // the standard-unit column is kept for the simplest layout
         all.push_back(makeM1(layout, shape, u));
     }
     return all;
@@ -687,7 +688,7 @@ static std::vector<ModelS> makeMOpsAll()
     cond("false", "<false/>");
     val("plus1", ap("plus", b)); val("plus3", ap("plus", b + one + b)); val("minus1", ap("minus", b)); val("minus2", ap("minus", b + one));
     val("times2", ap("times", b + one)); val("times3", ap("times", b + one + b)); val("divide", ap("divide", b + one)); val("power", ap("power", b + one));
-    val("rem", ap("rem", b + one)); val("min2", ap("min", b + one)); val("max3", ap("max", b + one + b)); val("min1", ap("min", b));
+    val("rem", ap("rem", b + one)); val("min2", ap("min", b + one)); val("max3", ap("max", b + one + b));
     val("root", ap("root", b)); val("root-degree", "<apply><root/><degree>" + one + "</degree>" + b + "</apply>");
     val("log", ap("log", b)); val("log-logbase", "<apply><log/><logbase>" + one + "</logbase>" + b + "</apply>");
     for (auto c : {"pi", "exponentiale", "notanumber", "infinity"}) val(c, std::string("<") + c + "/>");
@@ -789,7 +790,7 @@ static ModelS makeCyc(int len, int layout)
 //
 // Arity table (operator families of MathML 2.0 section 4.2.3, operand counts as libcellml states them in its messages):
 // relational eq neq lt leq gt geq: exactly 2; and or xor: >= 2; not: 1; plus: >= 1; times: >= 2; minus: 1 or 2;
-// divide power rem: exactly 2; min max: >= 1 (the weakest rule of their n-ary family); unary functions: exactly 1;
+// divide power rem: exactly 2; min max: >= 2 (as times, the other n-ary operator libcellml generates a binary call for); unary functions: exactly 1;
 // root / log: 1 operand plus an optional degree / logbase; diff: bvar + 1 operand; piece: 2 children; otherwise: 1.
 // =====================================================================================================================
 struct Fault
@@ -935,6 +936,16 @@ static std::vector<Injector> structuralInjectors()
                          if (others.empty()) continue;
                          std::set<size_t> pick = {others.front(), others.back()};
                          for (size_t d : pick) {
+                             // (if c's definition reaches d, giving c the name of d would ALSO make c refer to itself: a second fault)
+                             std::set<std::string> reach;
+                             std::vector<std::string> todo = {b.units[c].name};
+                             while (!todo.empty()) {
+                                 auto n = todo.back();
+                                 todo.pop_back();
+                                 int k = unitsIndex(b, n);
+                                 if (k >= 0) for (auto &u : b.units[size_t(k)].unit) if (reach.insert(u.ref).second) todo.push_back(u.ref);
+                             }
+                             if (reach.count(b.units[d].name)) continue;
                              bool ic = b.units[c].isrc >= 0, id = b.units[d].isrc >= 0;
                              std::vector<Rule> ex;
                              if (!ic || !id) ex.push_back(Rule::UNITS_NAME_UNIQUE);
@@ -1428,8 +1439,8 @@ static std::vector<Injector> mathInjectors()
         t.push_back({"logical-unary", "not", 1, 1});
         t.push_back({"arith-nary", "plus", 1, -1});
         t.push_back({"arith-nary", "times", 2, -1});
-        t.push_back({"arith-nary", "min", 1, -1});
-        t.push_back({"arith-nary", "max", 1, -1});
+        t.push_back({"arith-nary", "min", 2, -1}); // (as times: the generator emits a two-parameter function for them)
+        t.push_back({"arith-nary", "max", 2, -1});
         t.push_back({"arith-unary-or-binary", "minus", 1, 2});
         for (auto op : {"divide", "power", "rem"}) t.push_back({"arith-binary", op, 2, 2});
         for (auto &op : UNARY) t.push_back({"unary-function", op, 1, 1});
@@ -1611,6 +1622,21 @@ struct FamilyDef
 };
 
 static void runFaultHere(Ctx &ctx, const ModelS &base, const Injector &inj, const Fault &f);
+// The signature of a miss names the injector and the KIND of fault (the form of the bad value, the carrier kinds, the operator);
+// the position class of the location is recorded in the detail (and in the outcome histogram), not in the signature.
+static std::string sigLocation(const Injector &inj, const Fault &f)
+{
+    if (!f.sigloc.empty()) return f.sigloc;
+    auto parts = [&]() { std::vector<std::string> r; std::string cur; for (char c : f.loc) { if (c == '/') { r.push_back(cur); cur.clear(); } else cur += c; } r.push_back(cur); return r; }();
+    const std::string &n = inj.name;
+    auto ends = [&](const char *suf) { std::string x = suf; return n.size() >= x.size() && n.compare(n.size() - x.size(), x.size(), x) == 0; };
+    if (ends("-illegal") || n == "unit-prefix-bad" || n == "unit-prefix-range" || n == "variable-interface-bad" || n == "variable-initial-bad" || n == "import-href-invalid") return parts.back();
+    if (n == "id-invalid") return f.loc.substr(0, f.loc.find('@')) + "/" + parts.back();
+    if (n == "iface-insufficient" && parts.size() >= 2) return parts[parts.size() - 2] + "/" + parts.back();
+    if (n == "reset-order-dup" && parts.size() >= 2) return parts[parts.size() - 2];
+    if (n == "units-cycle") return parts.back();
+    return f.loc;
+}
 // Runs `body` (which returns true when the fault was reported) in a forked child so that a crash is attributed to exactly this
 // fault. Returns 1 reported, 0 missed (the child has printed the violation), -1 crashed (status describes how).
 static int isolated(const std::function<bool()> &body, std::string &status)
@@ -1640,7 +1666,7 @@ static void runFault(Ctx &ctx, const ModelS &base, const Injector &inj, const Fa
     else if (r == 0) { ++ctx.violations; ctx.outcome(inj.name + ":MISSED"); }
     else {
         ctx.outcome(inj.name + ":VALIDATOR-CRASHED");
-        ctx.violation("validator-crashed:" + inj.name + ":" + (f.sigloc.empty() ? f.loc : f.sigloc) + ":" + status, {{"base", base.desc}, {"location", f.loc}});
+        ctx.violation("validator-crashed:" + inj.name + ":" + sigLocation(inj, f) + ":" + status, {{"base", base.desc}, {"location", f.loc}});
     }
 }
 static void runFaultHere(Ctx &ctx, const ModelS &base, const Injector &inj, const Fault &f)
@@ -1676,8 +1702,8 @@ static void runFaultHere(Ctx &ctx, const ModelS &base, const Injector &inj, cons
     ctx.outcome(inj.name + (anyError ? ":MISSED-other-rules-only" : ":MISSED-no-error"));
     json ex = json::array();
     for (auto r : expect) ex.push_back(ruleName(r));
-    ctx.violation("fault-not-reported:" + inj.name + ":" + (f.sigloc.empty() ? f.loc : f.sigloc) + ":" + (anyError ? "only-" + issuedRules(v, true) : std::string("no-error")),
-                  {{"base", base.desc}, {"location", f.loc}, {"expected_any_of", ex}, {"issues", issuesJson(v, 12)}, {"faulted_model", printed(b->model)}});
+    ctx.violation("fault-not-reported:" + inj.name + ":" + sigLocation(inj, f) + ":" + (anyError ? "other-rules-only" : "no-error"),
+                  {{"base", base.desc}, {"location", f.loc}, {"expected_any_of", ex}, {"reported_rules", issuedRules(v, true)}, {"issues", issuesJson(v, 12)}, {"faulted_model", printed(b->model)}});
 }
 
 static void runCase(const FamilyDef &fam, uint64_t i, Ctx &ctx)
